@@ -145,6 +145,9 @@ class SchemaValidator:
         issues_list = []
         issues_list += self._check_unknown_attributes(tag_entry)
         for attribute_name in tag_entry.attributes:
+            if tag_entry._unknown_attributes and attribute_name in tag_entry._unknown_attributes:
+                # Reported above.  The value rules of an attribute assume the kind of entry it is declared for.
+                continue
             validators = self._get_validators(attribute_name)
             issues_list += self._run_validators(tag_entry, attribute_name, validators)
         return issues_list
